@@ -248,6 +248,11 @@ Definition py_format_str (v:pyval) : res := match v with VStr s => Normal (VStr 
 Definition py_list_append (l x:pyval) : res := match l with VList a => Normal (VList (a ++ [x])) | _ => Exc AttributeError end.
 Definition py_list_insert (l i x:pyval) : res :=
   match l, i with VList a, VInt z => let k := clamp (List.length a) (Some z) O in Normal (VList (firstn k a ++ x :: skipn k a)) | _, _ => Exc TypeError end.
+(* ordering comparisons: integers only (strings etc. are outside the translated subset: TypeError in the model means "not modelled") *)
+Definition py_lt (a b:pyval) : res := match a, b with VInt x, VInt y => Normal (VBool (x <? y)) | _, _ => Exc TypeError end.
+Definition py_le (a b:pyval) : res := match a, b with VInt x, VInt y => Normal (VBool (x <=? y)) | _, _ => Exc TypeError end.
+Definition py_gt (a b:pyval) : res := match a, b with VInt x, VInt y => Normal (VBool (y <? x)) | _, _ => Exc TypeError end.
+Definition py_ge (a b:pyval) : res := match a, b with VInt x, VInt y => Normal (VBool (y <=? x)) | _, _ => Exc TypeError end.
 Definition py_rev_same (v:pyval) : res := match v with VList l => Normal (VList (rev l)) | VTuple l => Normal (VTuple (rev l)) | VStr s => Normal (VStr (rev s)) | _ => Exc TypeError end.
 Definition py_divmod (a b:pyval) : res := q <- py_floordiv a b ;; r <- py_mod a b ;; Normal (VTuple [q; r]).
 Definition py_min2 (a b:pyval) : res := match a, b with VInt x, VInt y => Normal (VInt (Z.min x y)) | _, _ => Exc TypeError end.
